@@ -408,12 +408,14 @@ def _expand(u, path, canary):
                     job["rules"] += sp.rules
             r = run_vx(job)
             lm = line_map(r["orig"], r["start_line"], r["text"])
+            item_start = len(u.lines) + 1
             for k, l in enumerate(r["text"].split("\n")):
                 u.emit(l, ("repo", file, lm[k]))
+            item_end = len(u.lines)
             u.functions.append({"key": "item:" + file + "::" + selector, "mode": "item", "file": file,
                                 "selector": selector, "name": selector, "repo_line": r["start_line"],
                                 "sha256": hashlib.sha256(r["orig"].encode()).hexdigest(),
-                                "fired": r.get("fired", {}), "dropped_attrs": [], "gen_lines": [0, 0],
+                                "fired": r.get("fired", {}), "dropped_attrs": [], "gen_lines": [item_start, item_end],
                                 "orig": r["orig"], "rewritten": r["text"],
                                 "n_requires": 0, "n_ensures": 0, "n_loop_clauses": 0})
         else:
